@@ -163,6 +163,21 @@ def r4(ctx):
                             not fn.reaches_point(fn.entry, fn.pos(r), adj):
                         okb = True
     ctx.ob('C09.R4', fn, fn.body, ok, 'NN of a chained part', 'pushes %s; loops %s' % (keys, loops))
+    # slice start of part n = sum of the lengths of the parts before it: the running length is added to the start before
+    # it is replaced by the length of the next part (which starts as the length of part 0)
+    if m0:
+        import re as _re
+        acc = [(nid, rhs) for nid, d, rhs, op, lhs in fn.assignments() if d and d.split(':')[-1] == posv and op == '+=' and rhs is not None]
+        upd = [(nid, rhs) for nid, d, rhs, op, lhs in fn.assignments() if d and d.split(':')[-1] == addv and op == '=' and rhs is not None]
+        start_ok = any(fn.key(r_) == 'this.m_lengths[#0]' for n_, r_ in upd)
+        nxt = [(n_, r_) for n_, r_ in upd if _re.match(r'^this\.m_lengths\[\(\w+ \+ #1\)\]$', fn.key(r_))]
+        order_ok = False
+        if len(acc) == 1 and len(nxt) == 1 and fn.key(acc[0][1]) == addv:
+            pa, pu = fn.pos(acc[0][0]), fn.pos(nxt[0][0])
+            order_ok = pa is not None and pu is not None and pa[0] == pu[0] and pa[1] < pu[1]
+        ctx.ob('C09.R4', fn, acc[0][0] if acc else fn.body, start_ok and order_ok, 'slice start of a chained part',
+               'running length starts as the length of part 0: %s; it is added to the start before it is replaced by the '
+               'next length: %s' % (start_ok, order_ok))
     # the slice must lie inside the written data
     ctx.ob('C09.R4', fn, fn.body, okb, 'slice bound', 'slice start + length checked against the size of the data written (not the unset length byte): %s' % okb)
 
